@@ -278,9 +278,19 @@ func (propC03) Check(r *Run) []Violation {
 				continue
 			}
 			readmitted := false
-			for _, w := range writes {
+			// the write that actually readmitted it: the last routable verdict of a health check before the dispatch
+			lastIdx := -1
+			for i, w := range writes {
+				if w.Name == x.Backend && w.At >= failAt && w.At <= y.ArrivedAt && routableStr(w.Status) && w.Who == "hc" {
+					lastIdx = i
+				}
+			}
+			for i, w := range writes {
 				if w.Name == x.Backend && w.At >= failAt && w.At <= y.ArrivedAt && routableStr(w.Status) && w.Who == "hc" {
 					readmitted = true
+					if i != lastIdx {
+						continue
+					}
 					// "a later check": was the probe behind this write sent after the failure?
 					var probeAt time.Duration = -1
 					for _, h := range r.Exchanges {
@@ -288,8 +298,14 @@ func (propC03) Check(r *Run) []Violation {
 							probeAt = h.ArrivedAt
 						}
 					}
-					if probeAt >= 0 && probeAt < failAt {
+					// (older than the failure on the wire: the request that carried the failed attempt may end
+					// much later, after trying other candidates)
+					if probeAt >= 0 && probeAt < x.ArrivedAt {
 						r.Sim.Probe("c03.readmitted-by-a-probe-sent-before-the-failure")
+						// counted, not asserted: C07 says an endpoint "becomes routable again on the first probe that succeeds",
+						// C03 says "until a later check marks it routable again"; for a probe that left before the failure
+						// and was answered after it the two readings disagree (a repair that ignores such results makes
+						// C07's check-result-never-recorded fire). Left as a measured ambiguity.
 					}
 				}
 			}
